@@ -419,25 +419,87 @@ def rule_config(ctx) -> None:
     chk = ctx.chk
     gc = ctx.own(REG, "_RegistersBase", "get_config")
     ld = ctx.own(REG, "_RegistersBase", "_load_yml_config")
-    # writer forms: ret[reg.name] = {bitfield.name: enum value}  |  ret[reg.name] = hex string
-    stores = [s for s in ast.walk(gc.node) if isinstance(s, ast.Assign) and isinstance(s.targets[0], ast.Subscript)]
-    forms = {norm(s.targets[0]): norm(s.value) for s in stores}
-    ok_w = forms.get("ret[reg.name]") in ("reg.get_hex_value()",) or "reg.get_hex_value()" in forms.values()
-    ok_w = ok_w and forms.get("btf[bitfield.name]") == "bitfield.get_enum_value()"
-    chk.decide(bool(ok_w), "C11.config-keys", gc.qual, "configuration holds per register a hex string or {bit-field name: enum/hex value}", f"{forms}", "", A.loc(REG, gc.node))
-    # reader: dict form -> per bit-field set_enum_value(value, True); scalar form -> register.set_value(val, False)
-    src = ld.node
-    dict_if = [n for n in ast.walk(src) if isinstance(n, ast.If) and norm(n.test) == "isinstance(reg_value, dict)"]
-    ok_r = False
-    if dict_if:
-        se = [c for c in A.calls_in(dict_if[0], "set_enum_value")]
-        fb = [c for c in A.calls_in(dict_if[0], "find_bitfield")]
-        scal = [n for n in ast.walk(dict_if[0]) if isinstance(n, ast.If) and "isinstance(reg_value, (int, str))" in norm(n.test)]
-        sv = [c for c in A.calls_in(scal[0], "set_value")] if scal else []
-        ok_r = bool(se) and all([norm(a) for a in c.args] == ["bitfield_val", "True"] for c in se) and bool(fb) and norm(fb[0].args[0]) == "bitfield_name" and bool(sv) and [norm(a) for a in sv[0].args] == ["val", "False"]
-    chk.decide(ok_r, "C11.config-keys", ld.qual, "loader reads both forms: bit-field dictionaries through set_enum_value(value, raw=True) and scalars through set_value(value, raw=False)", "reader shape changed", "", A.loc(REG, ld.node))
-    fr = [c for c in A.calls_in(ld.node, "find_reg")]
-    chk.decide(bool(fr) and norm(fr[0].args[0]) == "reg_name", "C11.config-keys", ld.qual + " lookup", "register looked up by the configuration key", norm(fr[0]) if fr else "", "", A.loc(REG, ld.node))
+    # writer and reader evaluated on a model register file (registers and bit-fields are recorders): the configuration the writer
+    # produces holds per register a hex string or {bit-field name: enum value}; loading that configuration looks every register up
+    # by its key and replays exactly these values - bit-fields through set_enum_value(value, raw=True), registers through
+    # set_value(value, raw=False) with the hex-string switch honoured
+    from ..engines import ordereval as _oe
+    MObj = _oe.Obj
+    log = []
+
+    def btf(name, enum, hidden=False, at_reset=False):
+        return MObj(_btf=name, name=name, hidden=hidden, _enum=enum, _val=0 if at_reset else 5, _reset=0, width=4)
+
+    def reg(name, hexv, fields=(), as_hex=False):
+        return MObj(_reg=name, name=name, _hex=hexv, _bitfields=tuple(fields), config_as_hexstring=as_hex, _val=7, _reset=0)
+    regs = (reg("R_PLAIN", "0x12"), reg("R_HEXSTR", "ab12", as_hex=True),
+            reg("R_FIELDS", "0x0", [btf("A", "EN_A"), btf("B_HIDDEN_AT_RESET", "0x0", hidden=True, at_reset=True), btf("C", "0x3"), btf("D_HIDDEN_SET", "0x1", hidden=True)]))
+
+    def cv(c: ast.Call, ev):
+        f = norm(c.func)
+        if f == "value_to_int" and c.args:
+            v0 = ev.ev(c.args[0])
+            return ("INT", v0)
+        if f == "int" and len(c.args) == 2:
+            return ("INT16", ev.ev(c.args[0]))
+        if f == "self.find_reg" and c.args:
+            nm = ev.ev(c.args[0])
+            r0 = next((r for r in regs if r.__dict__["name"] == nm), None)
+            if r0 is None:
+                raise _oe.ModelRaise(_oe.Outcome("raise", "SPSDKRegsErrorRegisterNotFound", c))
+            log.append(("find_reg", nm))
+            return r0
+        if isinstance(c.func, ast.Attribute):
+            try:
+                o = ev.ev(c.func.value)
+            except _oe.Unsupported:
+                o = None
+            if isinstance(o, MObj) and "_reg" in o.__dict__:
+                m_ = c.func.attr
+                if m_ == "get_value":
+                    return o.__dict__["_val"]
+                if m_ == "get_reset_value":
+                    return o.__dict__["_reset"]
+                if m_ == "get_hex_value":
+                    return o.__dict__["_hex"]
+                if m_ == "get_bitfields":
+                    return o.__dict__["_bitfields"]
+                if m_ == "find_bitfield" and c.args:
+                    nm = ev.ev(c.args[0])
+                    return next(b_ for b_ in o.__dict__["_bitfields"] if b_.__dict__["name"] == nm)
+                if m_ == "set_value":
+                    log.append(("set_value", o.__dict__["name"], ev.ev(c.args[0]), ev.ev(A.arg_of(c, 1, "raw")) if A.arg_of(c, 1, "raw") is not None else False))
+                    return None
+            if isinstance(o, MObj) and "_btf" in o.__dict__:
+                m_ = c.func.attr
+                if m_ == "get_value":
+                    return o.__dict__["_val"]
+                if m_ == "get_reset_value":
+                    return o.__dict__["_reset"]
+                if m_ == "get_enum_value":
+                    return o.__dict__["_enum"]
+                if m_ == "set_enum_value":
+                    log.append(("set_enum_value", o.__dict__["name"], ev.ev(c.args[0]), ev.ev(A.arg_of(c, 1, "raw")) if A.arg_of(c, 1, "raw") is not None else False))
+                    return None
+        return _oe.NOT_MODELLED
+    me = MObj(_registers=regs)
+    try:
+        out = _oe.Evaluator({"self": me, "diff": False}, None, opaque_return=False, call_value=ctx.model_calls(cv)).run(A.body_of(gc.node))
+    except _oe.Unsupported as ex:
+        raise AnalysisError(f"C11.config-keys: get_config left the fragment: {ex}")
+    cfg = out.value if out.kind == "return" else None
+    want_cfg = {"R_PLAIN": "0x12", "R_HEXSTR": "ab12", "R_FIELDS": {"A": "EN_A", "C": "0x3", "D_HIDDEN_SET": "0x1"}}
+    chk.decide(cfg == want_cfg, "C11.config-keys", gc.qual, "configuration holds per register a hex string or {bit-field name: enum/hex value}; a hidden bit-field appears only when it differs from its reset value", f"{cfg}", f"{want_cfg}", A.loc(REG, gc.node))
+    del log[:]
+    try:
+        out2 = _oe.Evaluator({"self": me, "yml_data": dict(want_cfg)}, None, opaque_return=False, call_value=ctx.model_calls(cv)).run(A.body_of(ld.node))
+    except _oe.Unsupported as ex:
+        raise AnalysisError(f"C11.config-keys: _load_yml_config left the fragment: {ex}")
+    want_log = [("find_reg", "R_PLAIN"), ("set_value", "R_PLAIN", ("INT", "0x12"), False), ("find_reg", "R_HEXSTR"), ("set_value", "R_HEXSTR", ("INT16", "ab12"), False), ("find_reg", "R_FIELDS"),
+                ("set_enum_value", "A", "EN_A", True), ("set_enum_value", "C", "0x3", True), ("set_enum_value", "D_HIDDEN_SET", "0x1", True), ("set_value", "R_FIELDS", 7, False)]
+    chk.decide(out2.kind != "raise" and log == want_log, "C11.config-keys", ld.qual, "loader reads both forms: bit-field dictionaries through set_enum_value(value, raw=True) and scalars through set_value(value, raw=False), prefix-less hex strings with base 16",
+               f"{out2.kind}: {log}"[:400], f"{want_log}"[:300], A.loc(REG, ld.node))
+    chk.decide(log[:1] == [("find_reg", "R_PLAIN")], "C11.config-keys", ld.qual + " lookup", "register looked up by the configuration key", f"{log[:1]}", "", A.loc(REG, ld.node))
     # hex string form is parsed with base 16 exactly when it was written without 0x
     ghv = ctx.own(REG, "Register", "get_hex_value")
     iff = [n for n in ast.walk(ghv.node) if isinstance(n, ast.If) and norm(n.test) == "not self.config_as_hexstring"]
